@@ -303,7 +303,7 @@ impl TypedScenario for C04Raw {
     fn budget(&self, tier: Tier) -> usize {
         match tier {
             Tier::Quick => 4000,
-            Tier::Thorough => 300_000,
+            Tier::Thorough => 1_500_000,
         }
     }
     fn generate(&self, seed: u64, index: usize, tier: Tier) -> Plan {
@@ -423,7 +423,7 @@ impl TypedScenario for C04E2E {
     fn budget(&self, tier: Tier) -> usize {
         match tier {
             Tier::Quick => 1500,
-            Tier::Thorough => 100_000,
+            Tier::Thorough => 500_000,
         }
     }
     fn generate(&self, seed: u64, index: usize, _tier: Tier) -> E2EPlan {
